@@ -33,7 +33,7 @@ var instrPkgs = []string{
 	"lib/limit", "lib/load", "lib/discov", "lib/discov/internal", "lib/store/cache", "lib/store/sqlc",
 	"lib/store/sqlx", "lib/store/redis", "lib/store/kv", "lib/errorx", "lib/mathx", "lib/hash",
 	"api/handler", "api", "api/token", "rpc/internal/serverinterceptors", "rpc/internal/clientinterceptors",
-	"rpc/internal/balancer/p2c", "rpc/internal/auth", "lib/proc",
+	"rpc/internal/balancer/p2c", "rpc/internal/auth", "lib/proc", "lib/codec",
 }
 
 type propCfg struct {
@@ -100,6 +100,9 @@ type unit struct {
 var (
 	seams    = []string{"lib/discov/internal:NewClient"}
 	argSeams = []string{"lib/discov/internal:stateWatcher.watch"}
+	// packages without synchronisation of their own whose loops get a scheduling point per iteration, so that
+	// two tasks inside the same pure computation can be interleaved (state shared through a receiver)
+	preemptPkgs = []string{"lib/codec"}
 )
 
 // prepare builds the scratch copy for a property and returns it with its units.
@@ -134,7 +137,7 @@ func prepare(id string, instrument bool) (string, []unit) {
 	}
 	if instrument {
 		out, err := run(scratch, goEnv(), filepath.Join(verifDir, "bin", "instr"), "-dir", scratch, "-pkgs", strings.Join(instrPkgs, ","),
-			"-seams", strings.Join(seams, ","), "-argseams", strings.Join(argSeams, ","))
+			"-seams", strings.Join(seams, ","), "-argseams", strings.Join(argSeams, ","), "-preempt", strings.Join(preemptPkgs, ","))
 		if err != nil {
 			cleanup(scratch)
 			infra("instrumenter failed (a construct it cannot handle, or the tree does not type-check): %v\n%s", err, out)
